@@ -476,12 +476,18 @@ func (s *Session) Data(r io.Reader) error {
 	if err != nil {
 		return wrapErr(err)
 	}
+	commitAttempted := false
 	defer func() {
 		if err := buf.Remove(); err != nil {
 			s.log.Error("failed to remove buffered body", err)
 		}
 
-		// go-smtp will call Reset, but it will call Abort if delivery is non-nil.
+		if !commitAttempted {
+			// The message was refused before Commit. go-smtp will call
+			// Reset, but it aborts the delivery only if it is still there.
+			s.abort(bodyCtx)
+			return
+		}
 		s.cleanSession()
 	}()
 
@@ -497,6 +503,7 @@ func (s *Session) Data(r io.Reader) error {
 		return wrapErr(err)
 	}
 
+	commitAttempted = true
 	if err := s.delivery.Commit(bodyCtx); err != nil {
 		return wrapErr(err)
 	}
@@ -531,12 +538,18 @@ func (s *Session) LMTPData(r io.Reader, sc smtp.StatusCollector) error {
 	if err != nil {
 		return wrapErr(err)
 	}
+	commitAttempted := false
 	defer func() {
 		if err := buf.Remove(); err != nil {
 			s.log.Error("failed to remove buffered body", err)
 		}
 
-		// go-smtp will call Reset, but it will call Abort if delivery is non-nil.
+		if !commitAttempted {
+			// The message was refused before Commit. go-smtp will call
+			// Reset, but it aborts the delivery only if it is still there.
+			s.abort(bodyCtx)
+			return
+		}
 		s.cleanSession()
 	}()
 
@@ -552,6 +565,7 @@ func (s *Session) LMTPData(r io.Reader, sc smtp.StatusCollector) error {
 
 	// We can't really tell whether it is failed completely or succeeded
 	// so always commit. Should be harmless, anyway.
+	commitAttempted = true
 	if err := s.delivery.Commit(bodyCtx); err != nil {
 		return wrapErr(err)
 	}
